@@ -59,6 +59,8 @@ OPS = [
     ("rsplit->split", re.compile(r"\.rsplit_once\("), ".split_once("),
     ("split->rsplit", re.compile(r"(?<![r_])split_once\("), "rsplit_once("),
     ("starts->ends", re.compile(r"\.starts_with\("), ".ends_with("),
+    ("remap-removed", re.compile(r"\.remap\(remapper\)\?"), ""),
+    ("remap-cn-removed", re.compile(r"\.remap_with_class_name\(remapper, [a-z_&.]+\)\?"), ""),
     ("int+1", re.compile(r"(?<![\w.\"'])(\d{1,3})(?=[,;)\] ]|$)"), None),  # small integer literal n -> n+1
     ("stmt-deleted", None, None),  # a single-line call statement removed
 ]
@@ -75,7 +77,15 @@ def sites(path):
     text = open(path).read().split("\n")
     out = []
     in_test = False
+    in_block = False
     for ln, line in enumerate(text):
+        if in_block:
+            if "*/" in line:
+                in_block = False
+            continue
+        if line.strip().startswith("/*") and "*/" not in line:
+            in_block = True
+            continue
         code = strip_comment(line)
         if re.search(r"#\[cfg\(test\)\]", code):
             in_test = True  # test modules sit at the end of the files
